@@ -16,6 +16,7 @@ from lib import *
 import build as B
 import families as F
 import translate as T
+import translate_fn as TF
 
 AXIOM_ALLOW = set()   # names of standard-library axioms accepted under property theorems (none needed so far)
 
@@ -65,8 +66,11 @@ def check_proofs(pid, tier):
     # tables regenerated from the Rust source: generated definition = hand-written model function, for all arguments
     res['source_tables'] = {}
     mine = [t for t, ps in T.USED_BY.items() if pid in ps]
-    if ok and mine:
-        st = T.run(only=mine)
+    mine_fn = [t for t, ps in TF.USED_BY.items() if pid in ps]
+    if ok and (mine or mine_fn):
+        st = T.run(only=mine) if mine else {}
+        if mine_fn: st.update(TF.run(only=mine_fn))
+        mine = mine + mine_fn
         for t in mine:
             x = st.get(t, {'status': 'unparsed', 'reason': 'not run'})
             res['source_tables'][t] = {k: v for k, v in x.items() if k != 'file'}
@@ -76,9 +80,9 @@ def check_proofs(pid, tier):
             if x.get('compiles') and x.get('closed'):
                 res['discharged'] += 1; res['axioms'][x['theorem']] = []
             else:
-                res['problems'].append('the table `%s` translated from src/range.rs is no longer the model function the theorems are about (%s fails): %s'
+                res['problems'].append('the fragment `%s` translated from the Rust source is no longer the model function the theorems are about (%s fails): %s'
                                        % (t, x['theorem'], (x.get('coq_error') or 'not closed under the global context')[-500:]))
-        res['checker_cmd'] += '; tools/translate.py + coqc coq/Gen/Src_{%s}.v' % ','.join(mine)
+        res['checker_cmd'] += '; tools/translate.py / translate_fn.py + coqc coq/Gen/{Src,Fn}_{%s}.v' % ','.join(mine)
     bad = B.audit_sources()
     if bad: res['problems'].append('source audit: ' + '; '.join(bad[:5]))
     if tier == 'thorough' and ok and not res['problems']:
